@@ -33,17 +33,16 @@ Proof.
     unfold append_data in Hwl. cbn [length advance start] in Hwl.
     assert (L : Nat.ltb (start s + n) (w + 1) = false) by (apply Nat.ltb_ge; lia).
     rewrite L in Hwl. cbn [store_list bind] in Hwl. unfold store in Hwl.
-    cbn [buf] in Hwl.
-    destruct (set_byte (buf s) w b) as [bf|] eqn:Eb; cbn [bind] in Hwl; [|discriminate Hwl].
-    set (s2 := with_buf (mkS (buf s) (start s + n) (scat s) (hsp s) (par s)) bf) in *.
+    destruct (set_byte (buf (advance s n)) w b) as [bf|] eqn:Eb; cbn [bind] in Hwl; [|discriminate Hwl].
+    set (s2 := with_buf (advance s n) bf) in *.
     assert (Hr2 : rest s2 = skipn n l).
-    { unfold rest, s2. cbn [with_buf buf start]. rewrite (set_byte_skipn _ _ _ _ _ Eb) by lia.
+    { unfold rest, s2. cbn [with_buf advance buf start] in *. rewrite (set_byte_skipn _ _ _ _ _ Eb) by lia.
       rewrite <- Hr. unfold rest. rewrite skipn_add. reflexivity. }
     replace (w + 1)%nat with (S w) in Hwl by lia.
-    destruct (IH octs f tt s2 (S w) h' s' w' b' Ho Hc Hr2 ltac:(unfold s2; cbn [with_buf start]; lia) Hwl)
+    destruct (IH octs f tt s2 (S w) h' s' w' b' Ho Hc Hr2 ltac:(unfold s2; cbn [with_buf advance start]; lia) Hwl)
       as (A0 & A & B & D & F).
     split; [exact A0|]. split; [cbn [length]; lia|]. split; [|auto].
-    rewrite B. unfold s2. cbn [with_buf buf]. rewrite (set_byte_firstn _ _ _ _ Eb).
+    rewrite B. unfold s2. cbn [with_buf buf]. rewrite (set_byte_firstn _ _ _ _ Eb). cbn [advance buf].
     rewrite <- app_assoc. reflexivity.
 Qed.
 
@@ -65,5 +64,5 @@ Qed.
 
 Example convert_token_id_value_ex :
   convert_token unit id_process id_tail tt (mkS [0; 97; 92; 48; 54; 53; 32; 10] 1 CUnq false 0)
-  = Ok ([97; 65], mkS [48; 54; 53; 32; 10] 5 CLF true 0).
+  = Ok ([97; 65], mkS [92; 48; 54; 53; 32; 10] 6 CLF true 0).
 Proof. vm_compute. reflexivity. Qed.
